@@ -16,7 +16,7 @@
    correspondence check (bin/check C18). *)
 From Coq Require Import List ZArith Lia Bool Arith NArith.
 From Coq.Strings Require Import Byte.
-From Muduo Require Import Base_Bytes Gen_Consts C18_Model C18_StreamProofs C18_CodecProofs C18_HttpProofs C18_Proofs.
+From Muduo Require Import Base_Bytes Gen_Consts Gen_C18 C18_Model C18_StreamProofs C18_CodecProofs C18_HttpProofs C18_HttpRef C18_Proofs C18_GenLink.
 Import ListNotations.
 Local Open Scope Z_scope.
 
@@ -47,9 +47,10 @@ Proof. exact seg_invariant. Qed.
 Print Assumptions C18_seg_invariant.
 
 (* The chunk-fed literal decoder equals the reference decoding of the whole stream: messages,
-   first error, unconsumed rest.  For HTTP the reference inside Coq is the line-at-a-time
-   formulation [hstep] of the generic loop (a second formulation, not the nested loops of
-   parseRequest); the independent HTTP reference is the Python oracle of the check. *)
+   first error, unconsumed rest.  For HTTP the reference [ref_http] (C18_HttpRef.v) cuts the
+   whole stream into its CRLF-terminated lines and runs the request grammar over the list of
+   lines; result = events, final parser state, unconsumed bytes, abandoned flag.  (A further,
+   fully independent reference is the Python oracle of the check.) *)
 Theorem C18_equals_reference :
   (forall (msg : Type) (parse : list byte -> option msg) (tag : list byte) (chunks : list (list byte)),
     let s := concat chunks in
@@ -59,7 +60,7 @@ Theorem C18_equals_reference :
       mkD tt rest (match e with Some _ => true | None => false end) false)))
   /\
   (forall chunks : list (list byte),
-    http_feed_all http_init chunks = feed hstep http_init (concat chunks)).
+    http_feed_all http_init chunks = ref_http (concat chunks)).
 Proof. exact equals_reference. Qed.
 Print Assumptions C18_equals_reference.
 
@@ -182,6 +183,14 @@ Theorem C18_http_line_atomic :
                   Forall crlf_line lines.
 Proof. exact line_atomic. Qed.
 Print Assumptions C18_http_line_atomic.
+
+(* The length test of onMessage as translated from the current source by lib/gen_C18.py
+   (clang AST) is the length test of the model: editing the test breaks this obligation. *)
+Theorem C18_generated_length_test :
+  forall (tag : list byte) (len : Z),
+    Gen_C18.onMessage_length_bad len kMaxMessageLen (kMinMessageLen tag) = length_bad tag len.
+Proof. exact gen_length_test. Qed.
+Print Assumptions C18_generated_length_test.
 
 (* ---- non-vacuity: the hypotheses are inhabited, the objects are non-trivial ------------ *)
 Definition tagXYZ : list byte := [x58; x59; x5a].
